@@ -2,4 +2,4 @@
 Require Extraction.
 Require Import ExtrOcamlBasic.
 From Verif Require Import Lib.Base Model.Input.
-Extraction "model.ml" script_exec range_step.
+Extraction "model.ml" script_exec script_history range_step.
